@@ -38,6 +38,11 @@ type function struct {
 	oldEnv     starlark.Value
 	newEnv     starlark.Value
 
+	// oldData and newData are the pickled forms of oldEnv and newEnv. Two environments that are
+	// equal as Starlark values can still differ (1 and 1.0 compare equal); their pickles do not.
+	oldData string
+	newData string
+
 	out *lineWriter
 }
 
@@ -136,6 +141,11 @@ func (f *function) diffEnv() (bool, string, diff.ValueDiff, error) {
 		return false, "", nil, fmt.Errorf("comparing function environments: %w", err)
 	}
 	if d == nil {
+		if f.oldData != "" && f.newData != "" && f.oldData != f.newData {
+			// Equal as far as Starlark's == goes, yet not the same environment: a value changed its
+			// type (an integer became the equal float), or two references stopped sharing a value.
+			return false, "function environment changed", nil, nil
+		}
 		return true, "", nil, nil
 	}
 
@@ -179,11 +189,11 @@ func (f *function) diffEnv() (bool, string, diff.ValueDiff, error) {
 
 func (f *function) upToDate() (bool, string, diff.ValueDiff, error) {
 	// check env
-	newEnv, err := functionEnv(f.function)
+	newEnv, newData, err := functionEnvData(f.function)
 	if err != nil {
 		return false, "", nil, fmt.Errorf("computing function environment: %w", err)
 	}
-	f.newEnv = newEnv
+	f.newEnv, f.newData = newEnv, newData
 
 	// if this target always runs, skip the equality check
 	if f.always {
@@ -257,7 +267,7 @@ func (f *function) evaluate() (data string, changed bool, err error) {
 	}
 	b64.Close()
 
-	f.oldEnv = f.newEnv
+	f.oldEnv, f.oldData = f.newEnv, buf.String()
 	return buf.String(), true, nil
 }
 
@@ -279,6 +289,7 @@ func (f *function) load() error {
 		return fmt.Errorf("refreshing target info: %w", err)
 	}
 
+	f.oldData = info.Data
 	if len(info.Data) == 0 {
 		f.oldEnv = starlark.None
 	} else {
@@ -295,11 +306,20 @@ func (f *function) load() error {
 // functionEnv returns the given function's environment by round-tripping it through the
 // pickler.
 func functionEnv(f starlark.Callable) (starlark.Value, error) {
+	env, _, err := functionEnvData(f)
+	return env, err
+}
+
+// functionEnvData returns the given function's environment together with its pickled form (as
+// it is recorded: base64).
+func functionEnvData(f starlark.Callable) (starlark.Value, string, error) {
 	var buf bytes.Buffer
 	if err := pickle.NewEncoder(&buf, envPicklerT{}).Encode(f); err != nil {
-		return nil, err
+		return nil, "", err
 	}
-	return pickle.NewDecoder(&buf, pickle.UnpicklerFunc(envUnpickler)).Decode()
+	data := base64.StdEncoding.EncodeToString(buf.Bytes())
+	env, err := pickle.NewDecoder(&buf, pickle.UnpicklerFunc(envUnpickler)).Decode()
+	return env, data, err
 }
 
 // envPickler provides support for pickling functions and modules.
